@@ -159,6 +159,9 @@ class Exec:
         attrs = {"sim_tag": op.get("tag", 0)}
         attrs.update(op.get("attrs") or {})
         v = cls(attributes=attrs, **kw)
+        if cls is C.SlottedVertex:
+            v.name = op["new"]
+            v.rank = op.get("tag", 0)
         self.w.add(op["new"], v)
         return v
 
